@@ -369,7 +369,7 @@ theorem addModels_carries (s : Scene) (hs : SceneOK s) (l : List Model) :
       simpa [List.append_assoc] using this
 
 /-- a light node: translation = the light's position, no mesh -/
-def LightNode (l : List Nat) (n : GNode) : Prop := n.translation = some (l.take 3) ∧ n.mesh = none
+def LightNode (l : List Nat) (n : GNode) : Prop := n.translation = some (l.take 3) ∧ n.mesh = none ∧ n.inst = none
 
 theorem addLights_carries (ls : List (List Nat)) :
     ∀ (w : W), w.scene = List.range w.nodes.length →
@@ -383,7 +383,7 @@ theorem addLights_carries (ls : List (List Nat)) :
   | cons l r ih =>
     intro w hw
     obtain ⟨ln, h1, h2, h3, h4, h5, h6, h7⟩ := ih (addLight w l) (by simp [addLight, hw, List.range_succ])
-    refine ⟨{ translation := some (l.take 3), light := some w.lights } :: ln, ?_, ⟨⟨rfl, rfl⟩, h2⟩, h3, ?_, ?_,
+    refine ⟨{ translation := some (l.take 3), light := some w.lights } :: ln, ?_, ⟨⟨rfl, rfl, rfl⟩, h2⟩, h3, ?_, ?_,
       h6.trans' ⟨rfl, rfl, rfl, rfl⟩, h7⟩
     · simp only [List.foldl_cons]; rw [h1]; simp [addLight]
     · simp only [List.foldl_cons]; rw [h4]; simp [addLight]; omega
@@ -466,6 +466,43 @@ theorem carries_of_Carries (s : Scene) (w : W) (md : Model) (n : GNode) (h : Car
     names of the written attributes -/
 def SceneOK3 (s : Scene) : Prop := SceneOK s ∧ ∀ m ∈ s.meshHeap, KeysOK m
 
+theorem zip_mem_right {α β} {R : α → β → Prop} : ∀ {l : List α} {r : List β}, Zip R l r → ∀ b ∈ r, ∃ a, R a b
+  | [], [], _, b, hb => by cases hb
+  | _ :: _, _ :: _, hz, b, hb => by
+    simp only [List.mem_cons] at hb
+    rcases hb with rfl | hb
+    · exact ⟨_, hz.1⟩
+    · exact zip_mem_right hz.2 b hb
+  | [], _ :: _, hz, _, _ => hz.elim
+  | _ :: _, [], hz, _, _ => hz.elim
+
+/-- every node of the final document is the node of a visible model (carrying it) or a light node -/
+theorem scene_nodes_structure (s : Scene) (w : W) (hs : SceneOK s) (h : writeScene s = .ok w) :
+    ∀ n ∈ w.nodes, (∃ md, Carries s w md n) ∨ (∃ l, LightNode l n) := by
+  unfold writeScene at h
+  split at h
+  · cases h
+  · rename_i w1 h1
+    split at h
+    · injection h with h; subst h
+      unfold addScene at h1
+      split at h1
+      · cases h1
+      · rename_i w0 h0
+        injection h1 with h1; subst h1
+        obtain ⟨hn, hd⟩ := addModels_carries s hs s.models {} w0 [] ⟨inv_empty, by simp, by simp, by simp⟩
+          ⟨trivial, rfl, rfl, rfl⟩ (fun _ h => h) h0
+        obtain ⟨ln, e1, e2, e3, e4, e5, e6, e7⟩ := addLights_carries s.lights w0 hn.scene
+        have hg : Grow w0 (s.lights.foldl addLight w0) := ⟨ext_of_lowEq e6, [], by simp [e7]⟩
+        intro n hnn
+        rw [e1, List.mem_append] at hnn
+        rcases hnn with hnn | hnn
+        · obtain ⟨md, hc⟩ := zip_mem_right hn.zip n hnn
+          exact Or.inl ⟨md, carries_mono hc hg⟩
+        · obtain ⟨l, hl⟩ := zip_mem_right e2 n hnn
+          exact Or.inr ⟨l, hl⟩
+    · cases h
+
 /-- CARRIES THE SCENE.  For every well-formed scene the writer accepts: the document has exactly one node per visible
     model, in model order, then one node per light; the node of model k has the model's name and TRS verbatim, and its
     mesh's single primitive decodes — attribute by attribute under the glTF names, and the indices — to exactly the
@@ -504,7 +541,7 @@ theorem gltf_carries_scene (s : Scene) (w : W) (hs : SceneOK3 s) (h : writeScene
             show (s.lights.foldl addLight w0).nodes.drop _ = _
             rw [e1, hlen, List.drop_left' rfl]
           rw [this]
-          exact allZip_of_zip (fun l n hln => by obtain ⟨x, y⟩ := hln; simp [x, y]) e2
+          exact allZip_of_zip (fun l n hln => by obtain ⟨x, y, _⟩ := hln; simp [x, y]) e2
         · show ((s.lights.foldl addLight w0).scene == List.range (s.lights.foldl addLight w0).nodes.length) = true
           rw [e3]; simp
         · show ((s.lights.foldl addLight w0).lights == s.lights.length) = true
